@@ -330,6 +330,7 @@ class Daemon(object):
         """
         serializer_id = serializers.MarshalSerializer.serializer_id
         msg_seq = 0
+        current_context.response_annotations = {}   # nothing set while serving an earlier request may travel with this answer
         try:
             msg = protocol.recv_stub(conn, [protocol.MSG_CONNECT])
             msg_seq = msg.seq
@@ -400,6 +401,7 @@ class Daemon(object):
             # log.info("error receiving data from client %s: %s", conn.sock.getpeername(), x)
             raise x
         try:
+            current_context.response_annotations = {}   # nothing set while serving an earlier request may travel with this reply
             request_flags = msg.flags
             request_seq = msg.seq
             request_serializer_id = msg.serializer_id
@@ -1052,6 +1054,9 @@ class _OnewayCallThread(threading.Thread):
         super(_OnewayCallThread, self).__init__(target=self._methodcall, name="oneway-call")
         self.daemon = True
         self.parent_context = current_context.to_global()
+        # a oneway call has no reply: its thread gets a response annotations dict of its own,
+        # not the one the serving thread will use for the replies to the requests that follow
+        self.parent_context["response_annotations"] = {}
         self.pyro_daemon = pyro_daemon
         self.pyro_client_sock = pyro_client_sock
         self.pyro_method = pyro_method
